@@ -220,11 +220,11 @@ def run_reader_fixed(job, acc):
     acc.observe(acc.states)
 
 
-def check_roundtrip(acc, desc):
+def check_roundtrip(acc, desc, order=None):
     import circuitgraph as cg
 
-    case = {"kind": "roundtrip", "desc": desc}
-    c = space.build(desc)
+    case = {"kind": "roundtrip", "desc": desc, "order": order}
+    c = space.build(desc, order=order)
     acc.transitions += 1
     try:
         text = cg.io.circuit_to_bench(c)
@@ -270,6 +270,9 @@ def run_roundtrip(job, acc):
         acc.states += 1
         acc.nontrivial += 1
         check_roundtrip(acc, desc)
+        if any(x[1] in ("0", "1") for x in desc["nodes"]):
+            acc.states += 1
+            check_roundtrip(acc, desc, order="rev")   # constants / gates inserted before the inputs
         acc.sample({"desc": desc})
 
 
@@ -292,5 +295,5 @@ def replay(case, job):
             lines = [base[i] for i in case["order"]]
         check_read(acc, ast, lines, {k: v for k, v in case.items() if k not in ("text", "net")})
     else:
-        check_roundtrip(acc, case["desc"])
+        check_roundtrip(acc, case["desc"], order=case.get("order"))
     return acc.result()
